@@ -304,23 +304,7 @@ fn generate_method_params(
             let name = info.name;
             let ty = &info.ty_for_params;
 
-            let serde_attrs = if let Some(ref renamed) = info.serialized_name {
-                if info.is_optional {
-                    quote! {
-                        #[serde(rename = #renamed, skip_serializing_if = "Option::is_none")]
-                    }
-                } else {
-                    quote! {
-                        #[serde(rename = #renamed)]
-                    }
-                }
-            } else if info.is_optional {
-                quote! {
-                    #[serde(skip_serializing_if = "Option::is_none")]
-                }
-            } else {
-                quote! {}
-            };
+            let serde_attrs = param_serde_attrs(&info.serialized_name, info.is_optional);
 
             quote! {
                 #serde_attrs
